@@ -10,6 +10,7 @@ require (
 	github.com/sirupsen/logrus v1.6.0
 	go.etcd.io/bbolt v1.3.6
 	google.golang.org/grpc v1.56.3
+	gopkg.in/yaml.v2 v2.4.0
 )
 
 require (
@@ -59,7 +60,6 @@ require (
 	google.golang.org/api v0.107.0 // indirect
 	google.golang.org/genproto v0.0.0-20230410155749-daa745c078e1 // indirect
 	google.golang.org/protobuf v1.33.0 // indirect
-	gopkg.in/yaml.v2 v2.4.0 // indirect
 	gopkg.in/yaml.v3 v3.0.1 // indirect
 )
 
